@@ -220,6 +220,28 @@ def r09a(ctx):
            '(e.g. a channel concatenation treated as a shared-input op: the consumer sees the '
            'features of its first input only and the branches are forced to share a masker)',
            where(fc))
+    # ... nor on the END the axis is counted from: on a rank-4 tensor dim=-3 is the features
+    # axis and dim=-2 a spatial one
+    neg_bad = []
+    n_neg = 0
+    for l, r in table.items():
+        for neg, pos in (('[dim=-3]', '[dim=1]'), ('[dim=-2]', '[dim=2]')):
+            if l.endswith(neg):
+                twin = l[:-len(neg)] + pos
+                if twin in table:
+                    n_neg += 1
+                    diff = sorted(k for k in r if r[k] != table[twin][k])
+                    if diff:
+                        neg_bad.append((l, twin, diff))
+    ctx.floor('R09a', 'negative / positive axis world pairs', n_neg, 10)
+    ctx.ob('R09a', 'classification independent of the end the axis is counted from', not neg_bad,
+           f'{n_neg} function worlds classified identically with the axis counted from the end'
+           if not neg_bad else
+           '; '.join(f'{l} vs {t}: {d} differ' for l, t, d in neg_bad[:3]) +
+           ': on NCHW tensors torch.cat(xs, dim=-3) is a concatenation over the features axis, '
+           'but it is classified like one over another axis: the consumer sees the features of '
+           'its first input only and the concatenated branches are forced to share a masker',
+           where(fc))
     # case chains
     afc = repo.fn('add_features_calculator')
     aif = repo.fn('associate_input_features')
@@ -880,6 +902,85 @@ def r09g(ctx):
                f'fails with a mask / weight shape mismatch)', where(afc, node))
 
 
+def truth(t: Term, env) -> bool:
+    """Truth value of a condition term under concrete bindings (and / or / not on top of
+    ``concrete``)."""
+    if t[0] == 'bool':
+        vals = [truth(x, env) for x in t[2]]
+        return all(vals) if t[1] == 'and' else any(vals)
+    if t[0] == 'un' and t[1] == 'not':
+        return not truth(t[2], env)
+    return bool(concrete(t, env))
+
+
+def r09k(ctx):
+    """Which flatten / squeeze "includes the channels" is decided by the AXIS, however it is
+    spelled: the tests of add_features_calculator (the width is multiplied by the spatial size)
+    and of associate_input_features (the consumer's width is set by the flatten node) are
+    evaluated on concrete ranks and axis arguments; the channel case must be taken exactly when
+    the normalised axis (dim mod rank) is 1 -- start_dim=-3 of a rank-4 tensor is, dim=3 (the
+    last axis, ``rank - dim == 1``) is not."""
+    repo = ctx.repo
+    n = 0
+    for fname in ('add_features_calculator', 'associate_input_features'):
+        fn = repo.fn(fname)
+        sites = {}
+        for p in paths(repo, fn):
+            for e in p.events:
+                if fname == 'add_features_calculator':
+                    if e.kind != 'call' or not (callee(e.data[0]) or '').endswith(
+                            'FlattenFeaturesCalculator'):
+                        continue
+                elif not (e.kind == 'setitem' and e.data[1] == ('const', 'input_features_set_by')):
+                    continue
+                gs = path_guards(p, e)
+                key = next(((a[2][1], a[1][1]) for a, v in gs
+                            if v and a[0] == 'sub' and a[2][0] == 'const' and a[1][0] == 'attr' and
+                            a[1][2] == 'meta' and a[2][1] in ('flatten', 'squeeze')), None)
+                if key is None:
+                    continue
+                if fname == 'associate_input_features' and e.data[2] != key[1]:
+                    continue        # the other arm: inherits from the node before
+                conds = [(a, v) for a, v in gs if mentions(
+                    a, lambda x: x[0] == 'call' and (callee(x) or '').endswith('try_get_args'))]
+                sites.setdefault(key[0], (conds, e.node))
+        ctx.floor('R09k', f'channel cases of {fname}', len(sites), 2)
+        for key, (conds, node) in sorted(sites.items()):
+            n += 1
+            bad = None
+            argname = 'start_dim' if key == 'flatten' else 'dim'
+            for shape in ((2, 3, 5, 7), (2, 3, 5)):
+                r = len(shape)
+                for d in [x for x in range(-r + 1, r) if x != 0]:
+                    env = {}
+                    for a, _v in conds:
+                        for x in subterms(a):
+                            if x[0] == 'attr' and x[2] == 'shape':
+                                env[x] = shape
+                            if x[0] == 'call' and (callee(x) or '').endswith('try_get_args') and \
+                                    len(x[2]) >= 4 and x[2][3][0] == 'const':
+                                env[x] = d if x[2][3][1] == argname else (
+                                    -1 if x[2][3][1] == 'end_dim' else None)
+                    try:
+                        taken = all(truth(a, env) == v for a, v in conds)
+                    except (_NoValue, TypeError, IndexError, KeyError) as ex:
+                        raise AnalysisError(f'R09k: axis test of the {key} case of {fname} not '
+                                            f'evaluable: {ex}')
+                    want = d % r == 1
+                    if taken != want and bad is None:
+                        bad = (shape, d, taken)
+            ctx.ob('R09k', f'{fname}: {key} includes the channels iff the axis is 1', bad is None,
+                   'decided by the normalised axis on ranks 3 and 4, every non-batch axis, both '
+                   'spellings' if bad is None else
+                   f'for a rank-{len(bad[0])} input and {key}({argname}={bad[1]}) the channel case '
+                   f'is {"taken" if bad[2] else "not taken"}, but axis {bad[1] % len(bad[0])} '
+                   f'{"is" if bad[1] % len(bad[0]) == 1 else "is not"} the features axis: the '
+                   f'consumer reports a width that is not the one of the tensor feeding it '
+                   f'(features instead of features x spatial size, or the reverse) and export '
+                   f'fails with a mask / weight shape mismatch', where(fn, node))
+    return n
+
+
 def r09h(ctx, rule='R09h'):
     """The analysis graph has an edge for every operand: fx_to_nx_graph is interpreted on a small
     fx graph whose concatenation takes its tensors inside a tuple (``torch.cat((a, b), 2)``) and
@@ -1086,6 +1187,7 @@ def r09j(ctx, rule='R09j'):
 
 def run(ctx):
     r09j(ctx)
+    r09k(ctx)
     r09a(ctx)
     r09b(ctx)
     r09c(ctx)
